@@ -31,6 +31,10 @@ from flexstack.geonet.service_access_point import (
     ResultCode)
 from flexstack.geonet.position_vector import LongPositionVector, TST
 from flexstack.geonet.gbc_extended_header import GBCExtendedHeader
+from flexstack.geonet.service_access_point import TrafficClass
+import flexstack.geonet.router as router_mod
+import flexstack.geonet.location_table as loct_mod
+import dsched
 
 MODULES = ["Props.C07"]
 DRIVERS = ["Area"]
@@ -47,7 +51,12 @@ TRUSTED = [
 ASSUMPTIONS = [
     "receivers closer to the border than 0.5 m + 0.1 % of their distance from the centre are excluded (tolerance_skips)",
     "whole-packet runs: fresh routers, traffic class without SCF, itsGnAreaForwardingAlgorithm = SIMPLE (no CBF timer); "
-    "duplicate/DAD/PDR rejections belong to C06",
+    "duplicate/DAD/PDR rejections belong to C06; source-side requests: SCF on/off x location table empty / one neighbour "
+    "with / without progress towards the area",
+    "thread scenarios (harness/dsched.py): ONE concurrent replacement of the sender's LocTE position vector (reception of a "
+    "beacon/SHB of the sender) or of the ego position vector (refresh_ego_position_vector) during the reception of one "
+    "GBC/GAC packet, schedules with at most one pre-emption (two in the failing-input search); the delivery and the "
+    "forwarding decision are judged separately: each must be the decision for ONE of the vectors the object held",
     "known finding C07-KF1: Annex D's sender position vector is looked up under the packet's SOURCE address (the link "
     "layer hands the router no sender address); for a relayed packet (sender != source) whose source and sender entries "
     "disagree on SE_POS_VALID-and-inside, a receiver outside the area forwards where Annex D discards (or vice versa)",
@@ -387,11 +396,14 @@ def originate(c):
         kw["itsGnDefaultHopLimit"] = 1
     A, llA, _ = rs.make_router(1, **kw)
     A.ego_position_vector = lpv(A, c["src_lat"], c["src_lon"], c.get("src_pai", True))
+    if c.get("nbr"):            # one neighbour in the source's location table (learnt from a beacon)
+        A.location_table.new_shb_packet(LongPositionVector(gn_addr=rs.gn_addr(7), tst=TST.set_in_normal_timestamp_milliseconds(T0),
+                                                           latitude=c["nbr"][0], longitude=c["nbr"][1], pai=True), b"")
     ht = HeaderType.GEOBROADCAST if c["transport"] == "gbc" else HeaderType.GEOANYCAST
     req = GNDataRequest(upper_protocol_entity=CommonNH.BTP_B, data=b"c07", length=3,
                         packet_transport_type=PacketTransportType(header_type=ht, header_subtype=HST[(c["transport"], c["shape"])]),
                         area=Area(latitude=c["lat0"], longitude=c["lon0"], a=c["a"], b=c["b"], angle=c["az"]),
-                        max_hop_limit=c.get("hop", 10))
+                        max_hop_limit=c.get("hop", 10), traffic_class=TrafficClass(scf=bool(c.get("scf", False))))
     try:
         conf = A.gn_data_request(req)
         code = conf.result_code.name
@@ -634,6 +646,35 @@ def gen_packet_case(rng, relay_p=0.4):
 
 # ---------------------------------------------------------------------------------- (c) source: area size control
 
+def judge_source(c, code, pkts):
+    """oracle for one source-side request (property text + clause 10.3.11.2): an over-sized request is refused with
+    GEOGRAPHICAL_SCOPE_TOO_LARGE and nothing is sent - in EVERY state of the source; a fitting one is ACCEPTED and
+    transmitted once, except that a store-carry-forward packet is kept back (0 transmissions) while there is no
+    neighbour or - source outside the area - no neighbour with progress towards it.  Returns (oversize, expected
+    number of transmissions, complaints)."""
+    shape, a, b, mx = c["shape"], c["a"], c["b"], c["max_src"]
+    over = area_size(shape, a, b) > mx * 10 ** 6
+    scf, nb = bool(c.get("scf")), c.get("nbr_kind", "none")
+    inside_src = (c["src_lat"], c["src_lon"]) == (c["lat0"], c["lon0"])
+    state = f"[SCF={int(scf)}, location table: {nb}]"
+    bad = []
+    if over:
+        want_n = 0
+        if code != ResultCode.GEOGRAPHICAL_SCOPE_TOO_LARGE.name or pkts:
+            bad.append(f"request for {shape} a={a} b={b} ({float(area_size(shape, a, b)) / 1e6:.6f} km2) with itsGnMaxGeoAreaSize={mx} "
+                       f"{state}: confirm {code}, {len(pkts)} packets sent (must be refused with GEOGRAPHICAL_SCOPE_TOO_LARGE, nothing sent)")
+    else:
+        want_n = 0 if (scf and (nb == "none" or (not inside_src and nb != "progress"))) else 1
+        if code != "ACCEPTED" or len(pkts) != want_n:
+            bad.append(f"request for {shape} a={a} b={b} within itsGnMaxGeoAreaSize={mx} {state}: confirm {code}, {len(pkts)} packets "
+                       f"(expected ACCEPTED, {want_n})")
+    if pkts:
+        eh = GBCExtendedHeader.decode(pkts[0][12:12 + 44])
+        if (eh.latitude, eh.longitude, eh.a, eh.b, eh.angle) != (c["lat0"], c["lon0"], a, b, c["az"]):
+            bad.append(f"area on the wire {(eh.latitude, eh.longitude, eh.a, eh.b, eh.angle)} differs from the request")
+    return over, want_n, bad
+
+
 def check_source(ctx, n):
     rng = ctx.rng
     lines, recs = [], []
@@ -656,24 +697,29 @@ def check_source(ctx, n):
              "max_src": mx, "hop": 10, "src_pai": True}
         off = 0 if inside_src else (30000000 if lat0 < 0 else -30000000)       # source at the centre / 333 km towards the equator
         c["src_lat"], c["src_lon"] = lat0 + off, lon0
+        # state of the source: traffic class with / without store-carry-forward x location table empty / one neighbour that
+        # is closer to the area centre than the source (greedy progress) / farther away (local optimum)
+        c["scf"] = rng.random() < 0.5
+        nb = rng.choice(["none", "none", "progress", "behind"])
+        if nb != "none":
+            step = (15000000 if lat0 < 0 else -15000000)
+            c["nbr"] = [lat0 + (off // 2 if nb == "progress" else off + step) if not inside_src else lat0 + step, lon0]
+        c["nbr_kind"] = nb
         cover_hemisphere(ctx, "source", lat0, lon0)
         code, pkts = originate(c)
         ctx.evals()
-        over = area_size(shape, a, b) > lim
         tag = dict(c, kind="source")
-        if over and (code != ResultCode.GEOGRAPHICAL_SCOPE_TOO_LARGE.name or pkts):
-            ctx.violation(f"request for {shape} a={a} b={b} ({float(area_size(shape, a, b)) / 1e6:.6f} km2) with itsGnMaxGeoAreaSize={mx}: "
-                          f"confirm {code}, {len(pkts)} packets sent (must be refused, nothing sent)", tag)
-        if not over and (code != "ACCEPTED" or len(pkts) != 1):
-            ctx.violation(f"request for {shape} a={a} b={b} within itsGnMaxGeoAreaSize={mx}: confirm {code}, {len(pkts)} packets", tag)
-        if pkts:
-            eh = GBCExtendedHeader.decode(pkts[0][12:12 + 44])
-            if (eh.latitude, eh.longitude, eh.a, eh.b, eh.angle) != (c["lat0"], c["lon0"], a, b, c["az"]):
-                ctx.violation(f"area on the wire {(eh.latitude, eh.longitude, eh.a, eh.b, eh.angle)} differs from the request", tag)
+        over, want_n, bad = judge_source(c, code, pkts)
+        for w in bad:
+            ctx.violation(w, tag)
         ctx.cover("source_oversize" if over else "source_fits")
-        ctx.nontrivial(("src", shape, a, b, mx))
-        # F(ego) sign for the model: source inside (centre) / 333 km north
-        lines.append(f"src {shape} {a} {b} {mx} {'1' if inside_src else '-1'} 0 1")
+        ctx.cover("source_%s_scf%d_loct_%s" % ("oversize" if over else "fits", c["scf"], nb))
+        ctx.nontrivial(("src", shape, a, b, mx, c["scf"], nb, inside_src))
+        # F(ego) sign for the model: source inside (centre) / 333 km north; buffer case = no neighbour and SCF;
+        # greedy forwarding transmits unless it is at a local optimum with SCF
+        bc = c["scf"] and nb == "none"
+        greedy_ok = nb == "progress" or not c["scf"]
+        lines.append(f"src {shape} {a} {b} {mx} {'1' if inside_src else '-1'} {1 if bc else 0} {1 if greedy_ok else 0}")
         recs.append((tag, f"{code} {len(pkts)}"))
     if ctx.model_ok and lines:
         for (tag, real), mo in zip(recs, ctx.model("Area", lines)):
@@ -788,6 +834,223 @@ def check_trig(ctx):
                 ctx.mismatch("trig.frame", {"az": c["az"], "n": n, "e": e}, [rx, ry], mo)
 
 
+# ---------------------------------------------------------------------------------- (f) position vectors replaced concurrently
+#
+# Class: while one link-layer receive thread takes the delivery / Annex D decision for a GBC or GAC packet, another
+# thread REPLACES a position vector the decision reads - the sender's LocTE vector (reception of a newer beacon / SHB of
+# the sender) or the router's ego vector (refresh_ego_position_vector, GPS thread).  Both threads run on the real Router
+# under harness/dsched.py (pre-emption before every attribute/subscript/call bytecode of the four decision functions and
+# at every lock operation); schedules with at most `bound` pre-emptions are enumerated.
+# Oracle: each of the two decisions of the reception (delivered? / which transmission?) must be the decision the
+# property text prescribes for ONE of the vectors the object held (old or new) - a combination of fields of both is a
+# vector that never existed.  Cases are steered to pairs (old, new) for which some combination of fields would decide
+# differently from both (otherwise any interleaving is invisible).
+# Lean side: Props.C07.decision_sees_one_position_vector / annexD_on_one_sender_vector on the load counts of the
+# source (Props.C07.position_vectors_read_once_of_source).
+
+_torn_codes = None
+
+
+def torn_codes():
+    global _torn_codes
+    if _torn_codes is None:
+        _torn_codes = [getattr(Router, n).__code__ for n in ("gn_forwarding_algorithm_selection", "gn_data_indicate_gbc",
+                                                              "gn_data_indicate_gac", "gn_data_forward_gbc") if hasattr(Router, n)]
+    return _torn_codes
+
+
+def _in(c, la, lo):
+    """(inside?, in the tolerance band?) of a WGS-84 point for the case's area, by the independent projection"""
+    bb = c["b"] if c["shape"] != "circle" else max(c["b"], 1)
+    x, y = frame_coords(c["lat0"], c["lon0"], c["az"], la, lo)
+    return oracle_inside(c["shape"], c["a"], bb, x, y), in_band(c["shape"], c["a"], bb, x, y)
+
+
+def torn_expect(c, ego, se):
+    """(delivered?, transmission) the property prescribes for ego position `ego` = (lat, lon) and sender vector
+    `se` = (lat, lon, pai); None if a point lies in the tolerance band"""
+    e_in, e_band = _in(c, *ego)
+    s_in, s_band = _in(c, se[0], se[1])
+    if e_band or s_band:
+        return None
+    verdict = bool(se[2]) and s_in
+    if c["transport"] == "gac":
+        return e_in, ("none" if e_in or verdict else "fwd-nonarea")
+    return e_in, ("fwd-area" if e_in else ("none" if verdict else "fwd-nonarea"))
+
+
+def torn_allowed(c):
+    """allowed sets (deliver values, transmissions) + sensitivity: would SOME combination of fields of old and new
+    decide outside the allowed sets?"""
+    ego_o, se_o = (c["lat"], c["lon"]), (c["src_lat"], c["src_lon"], c.get("src_pai", True))
+    n = c["new"]
+    if c["what"] == "sender":
+        pairs = [(ego_o, se_o), (ego_o, (n["lat"], n["lon"], n["pai"]))]
+        mixes = [(ego_o, (la, lo, pa)) for la in (se_o[0], n["lat"]) for lo in (se_o[1], n["lon"]) for pa in (se_o[2], n["pai"])]
+    else:
+        pairs = [(ego_o, se_o), ((n["lat"], n["lon"]), se_o)]
+        mixes = [((la, lo), se_o) for la in (ego_o[0], n["lat"]) for lo in (ego_o[1], n["lon"])]
+    exp = [torn_expect(c, e, s_) for e, s_ in pairs]
+    mx = [torn_expect(c, e, s_) for e, s_ in mixes]
+    if any(x is None for x in exp + mx):
+        return None
+    allowed = ({x[0] for x in exp}, {x[1] for x in exp})
+    sensitive = any(m[0] not in allowed[0] or m[1] not in allowed[1] for m in mx)
+    return allowed, sensitive
+
+
+def gen_torn(rng, what=None):
+    """a case of the class, steered (by the oracle's own quantities only) to a pair of vectors whose fields can be
+    combined into a vector that decides differently"""
+    for _ in range(400):
+        shape, a, b, az, lat0, lon0 = gen_area(rng, False)
+        if abs(lat0) > 800000000 or a < 20 or a > 20000 or (shape != "circle" and (b < 20 or b > 20000)):
+            continue
+        c = {"kind": "torn", "what": what or rng.choice(["sender", "sender", "ego"]), "transport": rng.choice(["gbc", "gac"]),
+             "shape": shape, "a": a, "b": b, "az": az, "lat0": lat0, "lon0": lon0, "hop": rng.choice([3, 10, 255])}
+
+        def somewhere():
+            if rng.random() < 0.5:
+                return _place_somewhere(rng, c)
+            # on the geographic axes through the centre: combinations of one point's latitude with another's longitude
+            # fall onto the centre or onto the diagonal
+            d = rng.uniform(0.3, 2.5) * max(a, b if shape != "circle" else a)
+            p = place(lat0, lon0, 0, rng.choice([-1, 1]) * d, 0.0) if rng.random() < 0.5 else place(lat0, lon0, 0, 0.0, rng.choice([-1, 1]) * d)
+            return p or (lat0, lon0)
+        if c["what"] == "sender":
+            for _ in range(30):               # the forwarder is outside the area (Annex D consults the sender there only)
+                c["lat"], c["lon"] = _place_somewhere(rng, c)
+                if _in(c, c["lat"], c["lon"]) == (False, False):
+                    break
+            else:
+                continue
+        else:
+            c["lat"], c["lon"] = somewhere()
+        c["src_lat"], c["src_lon"] = somewhere()
+        c["src_pai"] = rng.random() < 0.7
+        nl = somewhere()
+        c["new"] = {"lat": nl[0], "lon": nl[1], "pai": rng.random() < 0.6}
+        r = torn_allowed(c)
+        if r is not None and r[1]:
+            return c
+    return None
+
+
+class TornRun:
+    """one execution of a `torn` case: thread T0 = gn_data_indicate(GBC/GAC frame of the source), thread T1 = the
+    replacement (gn_data_indicate(SHB of the same station with the new vector) / refresh_ego_position_vector)"""
+
+    def __init__(self, c, policy):
+        self.c = c
+        with rs.quiet(), rs.VClock(T0):
+            code, pkts = originate(dict(c, max_src=10 ** 7))
+            if code != "ACCEPTED" or len(pkts) != 1:
+                raise Infra(f"torn case: source did not transmit ({code})")
+            n = c["new"]
+            shb = None
+            if c["what"] == "sender":      # a newer single-hop broadcast of the SAME station from its new position
+                S, llS, _ = rs.make_router(1)
+                S.ego_position_vector = LongPositionVector(gn_addr=S.mib.itsGnLocalGnAddr, tst=TST.set_in_normal_timestamp_milliseconds(T0 + 500),
+                                                           latitude=n["lat"], longitude=n["lon"], pai=n["pai"])
+                S.gn_data_request(GNDataRequest(upper_protocol_entity=CommonNH.BTP_B, data=b"s", length=1,
+                                                packet_transport_type=PacketTransportType(header_type=HeaderType.TSB,
+                                                                                          header_subtype=TopoBroadcastHST.SINGLE_HOP)))
+                shb = llS.take()[0]
+            with dsched.patched([router_mod, loct_mod]):
+                B, llB, inds = rs.make_router(2, itsGnMaxGeoAreaSize=10 ** 7, itsGnAreaForwardingAlgorithm=AreaForwardingAlgorithm.SIMPLE)
+                B.ego_position_vector = lpv(B, c["lat"], c["lon"])
+                greedy = []
+                orig = B.gn_greedy_forwarding
+
+                def spy(*a, **k):
+                    r = orig(*a, **k)
+                    greedy.append(r)
+                    return r
+                B.gn_greedy_forwarding = spy
+                s = dsched.DSched(policy, line_files=(), opcode_codes=torn_codes(), max_steps=40000, line_points=False)
+                s.spawn(lambda: B.gn_data_indicate(pkts[0]), name="rx")
+                if shb is not None:
+                    s.spawn(lambda: B.gn_data_indicate(shb), name="beacon")
+                else:
+                    tpv = {"lat": n["lat"] / 1e7, "lon": n["lon"] / 1e7, "speed": 0.0, "track": 0.0, "time": "2023-11-14T22:13:20Z"}
+                    s.spawn(lambda: B.refresh_ego_position_vector(tpv), name="gps")
+                s.run(timeout=30.0)
+                sent = llB.take()
+        own = [x for x in sent if x[3] == pkts[0][3] - 1 and len(x) == len(pkts[0])]        # the forwarded copy (RHL - 1)
+        inds = [i for i in inds if i.packet_transport_type.header_type in (HeaderType.GEOBROADCAST, HeaderType.GEOANYCAST)]
+        self.acts = (len(inds) > 0, ("fwd-nonarea" if greedy else "fwd-area") if own else "none")
+        self.steps, self.choices = s.steps, [x[0] for x in s.steps]
+        al = torn_allowed(c)
+        self.allowed = al[0] if al else (set(), set())
+        self.bad = []
+        if al is None:
+            return
+        if s.abort_reason:
+            self.bad.append(f"run aborted: {s.abort_reason}")
+        for ts in s.threads:
+            if ts.exc is not None:
+                self.bad.append(f"thread {ts.name} raised {type(ts.exc).__name__}")
+        obj = "sender's LocTE position vector" if c["what"] == "sender" else "ego position vector"
+        if len(inds) > 1 or len(own) > 1:
+            self.bad.append(f"{len(inds)} indications / {len(own)} transmissions for one packet")
+        if self.acts[0] not in self.allowed[0]:
+            self.bad.append(f"{c['transport']} {c['shape']}: packet {'delivered' if self.acts[0] else 'not delivered'} although the station was "
+                            f"{'outside' if self.acts[0] else 'inside'} the area with the old AND with the new {obj}")
+        if self.acts[1] not in self.allowed[1]:
+            self.bad.append(f"{c['transport']} {c['shape']}: forwarding decision '{self.acts[1]}' while Annex D gives {sorted(self.allowed[1])} for the old "
+                            f"AND for the new {obj} (replaced by a concurrent thread): decided on a vector that never existed")
+
+
+def check_torn(ctx, c, bound, cap):
+    found, tried = [], [0]
+
+    def once(prefix):
+        if found:
+            return []
+        r = TornRun(c, dsched.Replay(prefix))
+        tried[0] += 1
+        ctx.evals()
+        ctx.cover("torn_schedules")
+        if r.bad:
+            again = TornRun(c, dsched.Replay(r.choices))
+            if again.bad:
+                found.append((r.choices, again.bad[0]))
+            else:
+                ctx.cover("torn_not_reproduced")
+        return r.steps
+
+    runs, exhausted = dsched.enumerate_schedules(once, bound, cap, ctx.rng)
+    ctx.cover("torn_cases")
+    ctx.cover(f"torn_{c['what']}_{c['transport']}")
+    if exhausted and not found:
+        ctx.cover("torn_cases_all_schedules_within_bound")
+    ctx.nontrivial(("torn", c["what"], c["transport"], c["shape"], c["a"], c["b"], c["az"], c["lat0"], c["lon0"]))
+    if found:
+        ctx.violation(f"concurrent replacement (schedule {tried[0]} of the enumeration): {found[0][1]}", dict(c, schedule=found[0][0]))
+    return bool(found)
+
+
+def torn_fixed():
+    """always-on scenarios of the class (circle r = 100 m / rectangle 200 x 50 m at azimuth 0, forwarder 300 m south)"""
+    lat0, lon0 = 415000000, 21000000
+    out = []
+    base = {"kind": "torn", "shape": "circle", "a": 100, "b": 0, "az": 0, "lat0": lat0, "lon0": lon0, "hop": 10}
+    ego = place(lat0, lon0, 0, -300.0, 0.0)
+    east600, east50, north600 = place(lat0, lon0, 0, 0.0, 600.0), place(lat0, lon0, 0, 0.0, 50.0), place(lat0, lon0, 0, 600.0, 0.0)
+    for tr in ("gbc", "gac"):
+        # old: outside with PAI / new: inside without PAI - Annex D: non-area forwarding for both
+        out.append(dict(base, what="sender", transport=tr, lat=ego[0], lon=ego[1], src_lat=east600[0], src_lon=east600[1], src_pai=True,
+                        new={"lat": east50[0], "lon": east50[1], "pai": False}))
+        # old: 600 m east / new: 600 m north, both with PAI - old latitude + new longitude = the centre
+        out.append(dict(base, what="sender", transport=tr, lat=ego[0], lon=ego[1], src_lat=east600[0], src_lon=east600[1], src_pai=True,
+                        new={"lat": north600[0], "lon": north600[1], "pai": True}))
+        # the station itself moves from 150 m north to 150 m east of the centre: never inside, combined = the centre
+        n150, e150 = place(lat0, lon0, 0, 150.0, 0.0), place(lat0, lon0, 0, 0.0, 150.0)
+        out.append(dict(base, what="ego", transport=tr, lat=e150[0], lon=e150[1], src_lat=east600[0], src_lon=east600[1], src_pai=False,
+                        new={"lat": n150[0], "lon": n150[1], "pai": True}))
+    return out
+
+
 # ---------------------------------------------------------------------------------- degenerate semi-axes
 
 def degenerate_cases():
@@ -825,6 +1088,11 @@ def run(ctx):
         pk = [c for c in corp if c.get("kind") == "packet"]
         if pk:
             check_packets(ctx, pk)
+        for c in [c for c in corp if c.get("kind") == "source"]:
+            code, pkts = originate(c)
+            ctx.evals()
+            for w in judge_source(c, code, pkts)[2]:
+                ctx.violation("corpus: " + w, c)
         key = detect_se_key()
         ctx.extra["variant"] = {"C07-KF1": "Annex D keyed by the packet's SOURCE (code as is)" if key == "source"
                                 else "Annex D keyed by the SENDER (repaired)"}
@@ -846,6 +1114,22 @@ def run(ctx):
         check_source(ctx, ctx.scale(300, 20000))
         check_annexd(ctx, ctx.scale(600, 60000))
         check_trig(ctx)
+    # thread scenarios (own clock / patched locks inside TornRun)
+    for c in [c for _, c in corpus("C07") if c.get("kind") == "torn"]:
+        r = TornRun(c, dsched.Replay(c.get("schedule", [])))
+        ctx.evals()
+        if r.bad:
+            ctx.violation("corpus: " + r.bad[0], c)
+    for c in torn_fixed():
+        check_torn(ctx, c, 1, ctx.scale(400, 4000))
+    for i in range(ctx.scale(4, 150)):
+        c = gen_torn(rng)
+        if c is None:
+            ctx.cover("torn_no_sensitive_pair_found")
+            continue
+        if i == 0:
+            ctx.sample("torn", c)
+        check_torn(ctx, c, ctx.scale(1, 2), ctx.scale(80, 800))
 
 
 def search(ctx):
@@ -857,6 +1141,16 @@ def search(ctx):
             check_packets(ctx, [gen_packet_case(ctx.rng) for _ in range(ctx.scale(4500, 100000))])
             check_source(ctx, ctx.scale(900, 20000))
             check_annexd(ctx, ctx.scale(1800, 60000))
+        if not ctx.violations:
+            for c in torn_fixed():
+                if check_torn(ctx, c, 2, ctx.scale(1200, 12000)):
+                    break
+        for _ in range(ctx.scale(20, 400)):
+            if ctx.violations:
+                break
+            c = gen_torn(ctx.rng)
+            if c is not None:
+                check_torn(ctx, c, ctx.scale(1, 2), ctx.scale(250, 2500))
     finally:
         ctx.model_ok = ok
 
@@ -890,9 +1184,11 @@ def replay(ctx, obj):
             check_packets(p, [case])
         elif kind == "source":
             code, pkts = originate(case)
-            over = area_size(case["shape"], case["a"], case["b"]) > case["max_src"] * 10 ** 6
-            if over != (code == "GEOGRAPHICAL_SCOPE_TOO_LARGE" and not pkts) or (not over and (code != "ACCEPTED" or len(pkts) != 1)):
-                p.v.append(f"confirm {code}, {len(pkts)} packets, oversize={over}")
+            p.v.extend(judge_source(case, code, pkts)[2])
+        elif kind == "torn":
+            r = TornRun(case, dsched.Replay(case.get("schedule", [])))
+            print(f"schedule with {dsched.preemptions(r.steps)} pre-emption(s): observed {r.acts}, allowed deliver {sorted(r.allowed[0])} / forward {sorted(r.allowed[1])}")
+            p.v.extend(r.bad)
         elif kind == "annexd":
             return _replay_annexd(case)
         elif kind == "trig":
